@@ -137,14 +137,3 @@ Fixpoint run_buffer (s : bstate) (ops : list op) : list (out * smap * smap) :=
 Definition binit (mx : Z) : bstate := {| buf := []; back := []; buffered := 0; maxb := mx |}.
 Definition abs (s : bstate) : smap := overlay (buf s) (back s).
 
-(* merge of two sorted lists, the first winning ties: what the iterator is meant to produce *)
-Fixpoint merge (l1 : smap) : smap -> smap :=
-  fix merge2 (l2 : smap) : smap :=
-    match l1, l2 with
-    | [], _ => l2
-    | _, [] => l1
-    | (k1, v1) :: r1, (k2, v2) :: r2 =>
-        if ltb k1 k2 then (k1, v1) :: merge r1 l2
-        else if ltb k2 k1 then (k2, v2) :: merge2 r2
-        else (k1, v1) :: merge r1 r2
-    end.
